@@ -59,6 +59,7 @@ import (
 	"github.com/megaease/easegress/pkg/resilience"
 	"github.com/megaease/easegress/pkg/supervisor"
 	"github.com/megaease/easegress/pkg/tracing"
+	"github.com/megaease/easegress/pkg/util/signer"
 	vx "github.com/megaease/easegress/pkg/verifx"
 )
 
@@ -157,7 +158,40 @@ func c13FreePort() int {
 
 // ---------------------------------------------------------------------------------------- request classes
 // The request classes an accepted HTTP object must survive (ConfigSpace!HttpReqs).
-var c13HTTPReqs = []string{"plain", "body", "basic", "bearer", "stream", "resp", "gz", "preflight", "jsonarr", "respstream"}
+var c13HTTPReqs = append(append([]string{"plain", "body", "basic", "bearer", "stream", "resp", "gz", "preflight", "jsonarr", "respstream"},
+	c13PathReqs...), "signed", "presigned", "signed0", "badsig")
+
+// Request paths derived from the paths the grammar configures (ConfigSpaceGrammar!PathReqs): anchor /a or
+// /api x variant.
+var c13PathReqs = []string{"a_bare", "a_slash", "a_seg", "a_case", "a_enc", "a_nosep",
+	"api_bare", "api_slash", "api_seg", "api_case", "api_enc", "api_nosep"}
+
+// c13PathOf is the request path of a PathReqs class ("" = not one).
+func c13PathOf(q string) string {
+	i := strings.IndexByte(q, '_')
+	if i < 0 {
+		return ""
+	}
+	anchor, variant := q[:i], q[i+1:]
+	if anchor != "a" && anchor != "api" {
+		return ""
+	}
+	switch variant {
+	case "bare":
+		return "/" + anchor
+	case "slash":
+		return "/" + anchor + "/"
+	case "seg":
+		return "/" + anchor + "/x/y"
+	case "case":
+		return "/" + strings.ToUpper(anchor)
+	case "enc": // "a" percent-encoded
+		return "/%61" + anchor[1:]
+	case "nosep":
+		return "/" + anchor + "x"
+	}
+	return ""
+}
 
 // c13Ctx builds the context of request class q. The request carries a deadline so that retry/limiter
 // waits stay short.
@@ -218,7 +252,35 @@ func (e *c13Env) c13Ctx(q string) (*context.Context, func()) {
 		r = mk("GET", "http://svc.example/a", nil)
 		r.Header.Set("X-A", "1")
 		withResp, respStream = true, true
+	case "signed", "signed0", "presigned", "badsig":
+		// what the Validator's signature section verifies, produced by the repository's own signer with
+		// access key k and secret s ("signed0": the empty secret)
+		secret := "s"
+		if q == "signed0" {
+			secret = ""
+		}
+		sc := signer.New().SetCredential("k", secret).NewContext(time.Now())
+		if q == "presigned" {
+			r = mk("GET", "http://svc.example/api/x?y=1", nil)
+			sc.Presign(r, time.Minute)
+		} else {
+			r = mk("POST", "http://svc.example/api/x?y=1", strings.NewReader("signed-body"))
+			r.Header.Set("X-A", "1")
+			sc.Sign(r)
+		}
+		if q == "badsig" {
+			// a complete signature header (right algorithm, three parts) whose parts are garbage
+			h := r.Header.Get("Authorization")
+			if i := strings.IndexByte(h, ' '); i > 0 {
+				r.Header.Set("Authorization", h[:i]+" Credential=k//, SignedHeaders=host;;x-nope, Signature=zz")
+			}
+		}
 	default:
+		if p := c13PathOf(q); p != "" {
+			r = mk("GET", "http://svc.example"+p, nil)
+			r.Header.Set("X-A", "1")
+			break
+		}
 		panic(c13RenderErr{"unknown request class " + q})
 	}
 	ctx := context.New(tracing.NoopSpan)
@@ -422,10 +484,11 @@ func (e *c13Env) drivePolicy(c *c13Cfg, raw c13M) {
 	if !e.call("create", vx.M{}, func() { w = pol.CreateWrapper() }) {
 		return
 	}
-	var okH, failH resilience.HandlerFunc
+	var okH, failH, slowH resilience.HandlerFunc
 	if !e.call("init", vx.M{}, func() {
 		okH = w.Wrap(func(stdcontext.Context) error { return nil })
 		failH = w.Wrap(func(stdcontext.Context) error { return c13ErrBackend })
+		slowH = w.Wrap(func(stdcontext.Context) error { time.Sleep(300 * time.Microsecond); return nil })
 	}) {
 		return
 	}
@@ -464,6 +527,34 @@ func (e *c13Env) drivePolicy(c *c13Cfg, raw c13M) {
 		cancel()
 		failH(ctx)
 		okH(ctx)
+	})
+	// recovery: the open state's wait elapses, successful probes close the circuit, failures then fill the
+	// fresh closed-state window and open it again, and the second half-open round is probed as well
+	e.call("handle", vx.M{"q": "recover", "gen": 1}, func() {
+		for round := 0; round < 2; round++ {
+			time.Sleep(2500 * time.Microsecond)
+			for i := 0; i < 6; i++ {
+				ctx, cancel := short()
+				okH(ctx)
+				cancel()
+			}
+			for i := 0; i < 6; i++ {
+				ctx, cancel := short()
+				failH(ctx)
+				cancel()
+			}
+		}
+	})
+	e.call("handle", vx.M{"q": "slow", "gen": 1}, func() {
+		for i := 0; i < 3; i++ {
+			ctx, cancel := short()
+			slowH(ctx)
+			cancel()
+		}
+		time.Sleep(2500 * time.Microsecond)
+		ctx, cancel := short()
+		slowH(ctx)
+		cancel()
 	})
 }
 
@@ -824,6 +915,13 @@ func (e *c13Env) renderHTTPServer(c *c13Cfg) (string, int) {
 	case "rewriteNoPath":
 		delete(path, "pathPrefix")
 		path["rewriteTarget"] = "/r"
+	case "exactSlash":
+		delete(path, "pathPrefix")
+		path["path"] = "/a/"
+	case "rewriteExactSlash":
+		delete(path, "pathPrefix")
+		path["path"] = "/a/"
+		path["rewriteTarget"] = "/b/"
 	default:
 		c13Bad(K, "path", v)
 	}
@@ -919,7 +1017,7 @@ func (e *c13Env) renderHTTPServer(c *c13Cfg) (string, int) {
 	return c13YAML(hs), port
 }
 
-var c13HSReqs = []string{"plain", "body", "hdr", "big", "acme", "host"}
+var c13HSReqs = append([]string{"plain", "body", "hdr", "big", "acme", "host"}, c13PathReqs...)
 
 // c13StderrTap redirects os.Stderr (the HTTPServer's error log is built over it) into a buffer so that
 // panics recovered by net/http's per-connection handler ("http: panic serving") are observed.
@@ -1045,6 +1143,13 @@ func (e *c13Env) driveHTTPServer(c *c13Cfg) {
 				case "host":
 					r, _ = http.NewRequest("GET", base+"/api/h", nil)
 					r.Host = "svc.example:8080"
+					r.Header.Set("X-A", "1")
+				default:
+					p := c13PathOf(q)
+					if p == "" {
+						panic(c13RenderErr{"unknown server request class " + q})
+					}
+					r, _ = http.NewRequest("GET", base+p, nil)
 					r.Header.Set("X-A", "1")
 				}
 				resp, err := client.Do(r)
